@@ -3,6 +3,7 @@ import LnModel.Emit.Model
 import LnModel.Emit.Lib
 import LnModel.Emit.Interface
 import LnModel.Emit.Request
+import LnModel.Emit.Example
 /-! Reading a dumped (real) HirSpec and a configuration; printing the emitter model's summaries. -/
 namespace Ln.EmitIO
 open Ln Sexp SpecIO
@@ -166,8 +167,28 @@ def pTo {α : Type} (f : α → Sexp) : Except Panic α → Sexp
   | .ok v => f v
   | .error e => .list [.atom "panic", .atom (identPanic e)]
 
+def exXName : ExX → String
+  | .recordNotFound => "recordNotFound" | .noVariant => "noVariant" | .diverged => "diverged"
+  | .ident p => "ident:" ++ identPanic p
+
+def exampleTo (e : ExampleSum) : Sexp :=
+  .list [.atom "example", .str e.stem, strsTo "imports" e.imports, .list [.atom "client", .str e.client],
+    .list (.atom "decls" :: e.decls.map fun (i, v) => .list [.str i, .str v.render]),
+    .list [.atom "method", .str e.method],
+    (match e.args with
+     | .positional ids => strsTo "positional" ids
+     | .requiredStruct n ids => .list (.atom "struct" :: .str n :: ids.map Sexp.str)),
+    .list (.atom "setters" :: e.setters.map fun (i, v) => .list [.str i, .str v.render])]
+
 def step (req : Sexp) : Option Sexp :=
   match req with
+  | .list [.atom "emit_examples", h, c] => do
+      let hir ← hirOf h
+      let cfg ← cfgOf c
+      pure (.list (.atom "examples" :: hir.operations.map fun op =>
+        match makeExample hir.schemas cfg op with
+        | .ok e => exampleTo e
+        | .error x => .list [.atom "panic", .atom (exXName x)]))
   | .list [.atom "emit_requests", h, c] => do
       let hir ← hirOf h
       let cfg ← cfgOf c
